@@ -43,8 +43,15 @@ def body1Ok (req : Spec.Smb1Req) (p : Bytes) : Bool :=
        (!ds.any Spec.smb1Speaks || Spec.smb1Speaks (ds.getD (le16 p 1) [])) && le16 p bcOff ≥ 16
    | .sessionSetup => wc = 4 && le16 p 7 ≤ le16 p bcOff && le16 p 7 ≥ 1)
 
+/-- the part of `Spec.smb1ReplyOk` about the security blob actually present -/
+def der1Ok (req : Spec.Smb1Req) (p : Bytes) : Bool :=
+  match req with
+  | .negotiate _ => Spec.derSpan (p.drop (1 + 2 * u8 p 0 + 18)) = some (le16 p (1 + 2 * u8 p 0) - 16)
+  | .sessionSetup => Spec.derSpan (p.drop (1 + 2 * u8 p 0 + 2)) = some (le16 p 7)
+
 theorem smb1ReplyOk_frame (m body : Bytes) (req : Spec.Smb1Req) (h32 : m.length ≥ 32)
-    (hb1 : body.length ≥ 1) (hbl : body.length < 100000) (hbody : body1Ok req body = true) :
+    (hb1 : body.length ≥ 1) (hbl : body.length < 100000) (hbody : body1Ok req body = true)
+    (hder : der1Ok req body = true) :
     Spec.smb1ReplyOk m req (nbtWrap (msg1 m body)) = true := by
   have hlen := msg1_length m body h32
   unfold Spec.smb1ReplyOk
@@ -71,11 +78,15 @@ theorem smb1ReplyOk_frame (m body : Bytes) (req : Spec.Smb1Req) (h32 : m.length 
   rw [h1, h2, h3, h4, h5, h6, hlen]
   have hb := hbody
   unfold body1Ok at hb
+  have hd := hder
+  unfold der1Ok at hd
   cases req with
   | negotiate ds =>
-    simp at hb ⊢
-    exact ⟨by omega, hb⟩
-  | sessionSetup => simp at hb ⊢; omega
+    simp at hb hd ⊢
+    exact ⟨by omega, hb, hd⟩
+  | sessionSetup =>
+    simp at hb hd ⊢
+    exact ⟨by omega, hb, hd⟩
 
 theorem ssBody_length : smb1SessionSetupReply.length = 218 := by decide +kernel
 
@@ -108,5 +119,16 @@ theorem negBody_ok (env : Env) (ds : List Bytes) (h : smb1DialectIndex ds < ds.l
   · right
     have := hs hany
     rwa [List.getD_eq_getElem?_getD] at this
+
+theorem ssBody_der : der1Ok .sessionSetup smb1SessionSetupReply = true := by decide +kernel
+
+theorem negBody_der (env : Env) (ds : List Bytes) : der1Ok (.negotiate ds) (smb1NegotiateReply env ds) = true := by
+  have hder : Spec.derSpan SECURITY_BLOB_NEG_PROTO = some 320 := by decide +kernel
+  unfold der1Ok smb1NegotiateReply
+  rw [negBlob_length]
+  generalize smbTime env = T
+  generalize smb1DialectIndex ds = idx
+  generalize SECURITY_BLOB_NEG_PROTO = B at hder ⊢
+  simp [u16le, u32le, u64le, zeros, Spec.le16, Spec.u8, byte_toNat, hder]
 
 end Masscanned.C17
